@@ -4,7 +4,7 @@
 cd "$(dirname "$0")"
 unset VERIF_SAMPLES
 export VERIF_SEED=1 VERIF_TIER=quick
-for c in C01 C02 C03 C04 C05 C06 C07 C09 C10 C11 C12 C13 C14 C15 C16 C17 C18 C19 C20; do
+for c in C01 C02 C03 C04 C05 C06 C07 C08 C09 C10 C11 C12 C13 C14 C15 C16 C17 C18 C19 C20; do
   s=$(date +%s); ./check $c --tier quick >/tmp/regen_$c.log 2>&1; rc=$?; e=$(date +%s)
   echo "$c exit=$rc wall=$((e-s))s $(grep -c KNOWN-FINDING /tmp/regen_$c.log) known"
 done
